@@ -921,6 +921,67 @@ def judge_c19_from_string(ctx, cfg, inputs):
                 ctx.distinct_nontrivial += 1
     return v
 
+
+def raw_docs(ctx, n):
+    """arrays / objects whose elements are arbitrary generated values with every whitespace placement around them (the nested placements of a
+    RawValue), the same documents mutated, and the element texts alone with surrounding whitespace (from_string / top level)"""
+    rng = ctx.rng
+    def ws():
+        return rng.choice([b'', b'', b' ', b'\n', b'\t ', b' \r\n '])
+    for _ in range(n):
+        k = rng.choice([0, 1, 1, 2, 3, 5])
+        elems = [gen.rand_doc(rng, depth=rng.choice([0, 1, 2, 3])) for _ in range(k)]
+        arr = b'[' + ws() + b','.join(ws() + e + ws() for e in elems) + b']'
+        keys = [rng.choice([b'a', b'b', b'k\\u0041', b'', b'\xc3\xa9', b'a']) for _ in elems]
+        obj = b'{' + ws() + b','.join(ws() + b'"' + kk + b'"' + ws() + b':' + ws() + e + ws() for kk, e in zip(keys, elems)) + b'}'
+        yield ws() + arr + ws()
+        yield ws() + obj + ws()
+        for e in elems[:2]:
+            yield ws() + e + ws()
+        if rng.random() < 0.3:
+            for m in gen.mutations(rng, arr, maxn=6):
+                yield m
+            for m in gen.mutations(rng, obj, maxn=6):
+                yield m
+
+def judge_c19_raw(ctx, cfg, docs):
+    """Model/RawM.v vs the real crate: from_string, top-level capture per source, Vec<Box<RawValue>>, map String -> Box<RawValue> in arrival order,
+    serialising a Vec of raws compact and pretty; on the implementation side every captured value is also serialised back (to_string,
+    to_string_pretty, inside an array, Display), sent through to_value and re-captured borrowed — any difference shows up as a DIFF-suffix"""
+    L = ctx.letters(cfg)
+    lines = []
+    for d in docs:
+        h = hx(d)
+        if gen.is_utf8(d):
+            lines.append('rfs %s %s' % (L, h))
+        for src in ('s', 'b', 'r1', 'r3'):
+            if src == 's' and not gen.is_utf8(d):
+                continue
+            lines.append('rtop %s %s %s' % (L, src, h))
+            if d.lstrip()[:1] == b'[':
+                lines.append('rnest %s %s %s' % (L, src, h))
+            if d.lstrip()[:1] == b'{':
+                lines.append('robj %s %s %s' % (L, src, h))
+    rng = ctx.rng
+    valid = [d.strip(b' \n\t\r') for d in docs if gen.is_utf8(d)]
+    for i in range(0, len(valid) - 3, 3):
+        items = valid[i:i + rng.choice([0, 1, 2, 3])]
+        fmt = rng.choice(['c', 'p2020', 'p09', 'p'])
+        lines.append('rser %s %s' % (fmt, ','.join(hx(x) for x in items)) if items else 'rser %s' % fmt)
+    io, mo = ctx.both(cfg, lines, impl_name='sjh_raw', model_name='sjdriver_raw')
+    v = []
+    for line, a, m in zip(lines, io, mo):
+        if a == 'SKIP':
+            continue
+        if a != m:
+            op = line.split(' ')[0]
+            what = 'raw-direct-relation' if 'DIFF-' in a else ('raw-' + op + '-differs-from-model')
+            v.append({'what': what, 'cfg': cfg, 'input': line.split(' ')[-1], 'expected': 'model (Model/RawM.v): ' + m[:300], 'actual': a[:300], 'shrinkable': False, 'case': line[:400]})
+        elif not ctx.quiet and a.startswith('ok'):
+            ctx.distinct_nontrivial += 1
+    ctx.count('raw-model-lines', len(lines))
+    return v
+
 def run_c19(ctx):
     ctx.rule = ('Box<RawValue> and IgnoredAny over the exhaustive 4-token space, generated documents with every whitespace placement, and their mutations, slice and '
                 '1-byte reader; captured span and accept/reject compared with the model (proved: exactly the source text of one value; scanner = RFC 8259 grammar minus '
@@ -934,6 +995,8 @@ def run_c19(ctx):
                 ctx.sample({'op': 'pr/pi', 'cfg': cfg, 'input_hex': hx(d)})
         ws_docs = [w1 + d + w2 for d in [b'null', b'1', b'"x"', b'[1, 2]', b'{"a" : [ ] }', b'-0.5e+3'] for w1 in (b'', b' ', b'\n\t') for w2 in (b'', b' ', b'\n', b' \r\n ')]
         ctx.violations += judge_c19_from_string(ctx, cfg, ws_docs)
+        rd = list(raw_docs(ctx, 1500 if ctx.tier == 'quick' else 15000)) + ws_docs + list(itertools.islice(gen.enum_tokens(3), 0, None, 3))
+        ctx.violations += judge_c19_raw(ctx, cfg, rd)
 
 PARSER_TB = ['modelled, not verified: std::io::Bytes (one-byte reads, Interrupted retried), memchr, str::from_utf8, BTreeMap/IndexMap insert, rustc float literal parsing (POW10), IEEE arithmetic of f64 (Flocq model)',
              'the three readers are abstracted to one cursor (rest, off, peeked) — tied by running str/slice/reader sources with chunk schedules']
